@@ -521,4 +521,112 @@ Section C03.
     - pair_item Hwf (@feq_sym E) (mem_sym mu L Q).
     - lmi_item Hwf (@feq_sym_lmi E) (fun xi gi xj gj : E => ref_sym_lmi mu L xi gi xj gj) (mem_sym_lmi mu L Q).
   Qed.
+
+  (** ** BlockSmoothConvexFunction(partition, [L_0 .. L_{K-1}])
+      K = [f_nblocks st] blocks; the partition is a family of block projections P_0 .. P_{K-1}
+      ([block_projections], Spec/Classes.v: on R^d the coordinate-block projections); each recorded
+      sample carries the K blocks of its gradient ([s_gblocks], what [partition.get_block(g, k)]
+      returned) and block k is valued at [P k (value of g)]; [self.L[k]] ([f_Lk st k], variable
+      [SPar 6] of the formula) is the smoothness constant L_k along block k.  The generator emits the
+      formula once per ordered pair of samples and per block k: the theorem covers every block. *)
+  Definition stmt_BlockSmoothConvexFunction (plan : list plan_item) : Prop :=
+    forall (P : nat -> E -> E) (Ls : nat -> R) (F : dfn) st,
+      block_smooth_convex_member (f_nblocks st) P Ls F ->
+      (forall k, (k < f_nblocks st)%nat -> 0 < Ls k /\ Q2R (f_Lk st k) = Ls k) ->
+      wf_state st -> wf_blocks st ->
+      (forall s, In s (f_points st) -> genuine_grad F (sval s)) ->
+      (forall s k, In s (f_points st) -> (k < f_nblocks st)%nat -> veq (pgk rho k s) (P k (pg s))) ->
+      ok (run_plan plan st).
+
+  Lemma c03_BlockSmoothConvexFunction : stmt_BlockSmoothConvexFunction plan_BlockSmoothConvexFunction.
+  Proof.
+    intros P Ls F st HF HLs Hwf Hblk Hpts Hproj. c03_plan.
+    - intros si sj k Hi Hj Hk. destruct (HLs k Hk) as [HLpos HLeq].
+      eapply instB_holds_ref;
+        [ exact Hwf | exact (proj1 Hwf si Hi) | exact (proj1 Hwf sj Hj) | exact (Hblk si k Hi) | exact (Hblk sj k Hj)
+        | apply (@feq_block_smooth E); vars; rewrite HLeq; lra
+        | unfold sat; cbn [fst snd]; vars; rewrite HLeq;
+          rewrite (ref_block_smooth_veq (Ls k) _ _ _ _ _ _ _ _ _ (Hproj si k Hi Hk) (Hproj sj k Hj Hk));
+          eapply (mem_block_smooth (f_nblocks st) P Ls F k); side ].
+  Qed.
 End C03.
+
+(** * the table of the 24 classes *)
+Section Table.
+  Context {E : ips}.
+  Variable rho : nat -> E.
+  Variable phi : nat -> R.
+
+  Definition c03_table : list (string * (list plan_item -> Prop)) :=
+    [("BlockSmoothConvexFunction", stmt_BlockSmoothConvexFunction rho phi);
+     ("ConvexFunction", stmt_ConvexFunction rho phi);
+     ("ConvexIndicatorFunction", stmt_ConvexIndicatorFunction rho phi);
+     ("ConvexLipschitzFunction", stmt_ConvexLipschitzFunction rho phi);
+     ("ConvexQGFunction", stmt_ConvexQGFunction rho phi);
+     ("ConvexSupportFunction", stmt_ConvexSupportFunction rho phi);
+     ("RsiEbFunction", stmt_RsiEbFunction rho phi);
+     ("SmoothConvexFunction", stmt_SmoothConvexFunction rho phi);
+     ("SmoothConvexLipschitzFunction", stmt_SmoothConvexLipschitzFunction rho phi);
+     ("SmoothFunction", stmt_SmoothFunction rho phi);
+     ("SmoothStronglyConvexFunction", stmt_SmoothStronglyConvexFunction rho phi);
+     ("SmoothStronglyConvexQuadraticFunction", stmt_SmoothStronglyConvexQuadraticFunction rho phi);
+     ("StronglyConvexFunction", stmt_StronglyConvexFunction rho phi);
+     ("CocoerciveOperator", stmt_CocoerciveOperator rho phi);
+     ("CocoerciveStronglyMonotoneOperator", stmt_CocoerciveStronglyMonotoneOperator rho phi);
+     ("LinearOperator", stmt_LinearOperator rho phi);
+     ("LipschitzOperator", stmt_LipschitzOperator rho phi);
+     ("LipschitzStronglyMonotoneOperator", stmt_LipschitzStronglyMonotoneOperator rho phi);
+     ("MonotoneOperator", stmt_MonotoneOperator rho phi);
+     ("NegativelyComonotoneOperator", stmt_NegativelyComonotoneOperator rho phi);
+     ("NonexpansiveOperator", stmt_NonexpansiveOperator rho phi);
+     ("SkewSymmetricLinearOperator", stmt_SkewSymmetricLinearOperator rho phi);
+     ("StronglyMonotoneOperator", stmt_StronglyMonotoneOperator rho phi);
+     ("SymmetricLinearOperator", stmt_SymmetricLinearOperator rho phi)]%string.
+
+  (** the statement proved for class [name]; [False] for a class without a theorem *)
+  Fixpoint c03_lookup (name : string) (tbl : list (string * (list plan_item -> Prop))) : list plan_item -> Prop :=
+    match tbl with
+    | [] => fun _ => False
+    | (n, stmt) :: tbl' => if String.eqb n name then stmt else c03_lookup name tbl'
+    end.
+
+  Definition c03_statement (name : string) (plan : list plan_item) : Prop := c03_lookup name c03_table plan.
+End Table.
+
+(** the classes covered are exactly the classes the translator found in /repo *)
+Lemma c03_covered_classes {E : ips} (rho : nat -> E) phi :
+  map fst (c03_table rho phi) = translated_classes /\ map fst all_plans = translated_classes.
+Proof. split; vm_compute; reflexivity. Qed.
+
+(** every translated class has its theorem, about the plan generated for it *)
+Theorem c03_all_classes {E : ips} (rho : nat -> E) phi name plan :
+  In (name, plan) all_plans -> c03_statement rho phi name plan.
+Proof.
+  intros Hin. unfold all_plans in Hin. cbn [In] in Hin.
+  repeat (destruct Hin as [Hin|Hin]; [injection Hin as <- <-; unfold c03_statement, c03_table; cbn [c03_lookup String.eqb Ascii.eqb Bool.eqb]|]);
+    [..|destruct Hin].
+  - apply c03_BlockSmoothConvexFunction.
+  - apply c03_ConvexFunction.
+  - apply c03_ConvexIndicatorFunction.
+  - apply c03_ConvexLipschitzFunction.
+  - apply c03_ConvexQGFunction.
+  - apply c03_ConvexSupportFunction.
+  - apply c03_RsiEbFunction.
+  - apply c03_SmoothConvexFunction.
+  - apply c03_SmoothConvexLipschitzFunction.
+  - apply c03_SmoothFunction.
+  - apply c03_SmoothStronglyConvexFunction.
+  - apply c03_SmoothStronglyConvexQuadraticFunction.
+  - apply c03_StronglyConvexFunction.
+  - apply c03_CocoerciveOperator.
+  - apply c03_CocoerciveStronglyMonotoneOperator.
+  - apply c03_LinearOperator.
+  - apply c03_LipschitzOperator.
+  - apply c03_LipschitzStronglyMonotoneOperator.
+  - apply c03_MonotoneOperator.
+  - apply c03_NegativelyComonotoneOperator.
+  - apply c03_NonexpansiveOperator.
+  - apply c03_SkewSymmetricLinearOperator.
+  - apply c03_StronglyMonotoneOperator.
+  - apply c03_SymmetricLinearOperator.
+Qed.
